@@ -7,6 +7,7 @@ import (
 	"math/rand"
 	"net"
 	"net/http"
+	"reflect"
 	"strconv"
 	"strings"
 	"sync"
@@ -531,7 +532,7 @@ func healthHTTPCase(c *h.Case) {
 	}
 	ctx, cancel := context.WithCancel(context.Background())
 	defer cancel()
-	m := health.NewMonitor(ctx, cfg, "127.0.0.1:"+strconv.Itoa(hb.port), func() { hb.callback(true) }, func() { hb.callback(false) })
+	m := newMonitor(ctx, cfg, "127.0.0.1:"+strconv.Itoa(hb.port), func() { hb.callback(true) }, func() { hb.callback(false) })
 	m.Start()
 	watchdog := time.Duration(n+1)*time.Duration(interval+timeout+3)*time.Second + 30*time.Second
 	select {
@@ -698,7 +699,7 @@ func healthTCPCase(c *h.Case) {
 	ctx, cancel := context.WithCancel(context.Background())
 	defer cancel()
 	cfg := v1.HealthCheckConfig{Type: "tcp", TimeoutSeconds: 1, MaxFailed: maxFailed, IntervalSeconds: interval}
-	m := health.NewMonitor(ctx, cfg, "127.0.0.1:"+strconv.Itoa(tg.port), cb(true), cb(false))
+	m := newMonitor(ctx, cfg, "127.0.0.1:"+strconv.Itoa(tg.port), cb(true), cb(false))
 	m.Start()
 	defer m.Stop()
 	reopen := func() bool {
@@ -822,4 +823,17 @@ func healthTCPCase(c *h.Case) {
 	if hole {
 		run.Count("tcp_timeout_scripts", 1)
 	}
+}
+
+// newMonitor calls health.NewMonitor whether it takes the health check configuration by value or by
+// pointer, so that the check builds against either signature (the monitor gets its own copy anyway).
+func newMonitor(ctx context.Context, cfg v1.HealthCheckConfig, addr string, up, down func()) *health.Monitor {
+	fn := reflect.ValueOf(health.NewMonitor)
+	arg := reflect.ValueOf(cfg)
+	if fn.Type().In(1).Kind() == reflect.Ptr {
+		cp := cfg
+		arg = reflect.ValueOf(&cp)
+	}
+	out := fn.Call([]reflect.Value{reflect.ValueOf(ctx), arg, reflect.ValueOf(addr), reflect.ValueOf(up), reflect.ValueOf(down)})
+	return out[0].Interface().(*health.Monitor)
 }
